@@ -85,8 +85,27 @@ def static_checks(ctx):
     n_atomic = len(re.findall(r"std::atomic<off_t>\s+(write|read|read_lookahead)\s*;", st))
     weak = re.findall(r"memory_order_(relaxed|consume|acquire|release|acq_rel)", src)
     ok = n_atomic == 3 and not weak
-    return [{"name": "C06.atomics.seq_cst", "ok": ok,
-             "detail": "std::atomic<off_t> index members: %d of 3; weaker memory orders named: %s" % (n_atomic, weak)}]
+    res = [{"name": "C06.atomics.seq_cst", "ok": ok,
+            "detail": "std::atomic<off_t> index members: %d of 3; weaker memory orders named: %s" % (n_atomic, weak)}]
+    # native deterministic schedules on the REAL thread-link.cpp: the other thread runs at every buffer copy
+    # (harness/C06/schedule_replay.cpp); this is the executable demonstration behind the publication-order obligations
+    import subprocess
+    exe = os.path.join(ctx.scratch, "schedule_replay")
+    cmd = ["g++", "-std=c++17", "-O1", "-g", '-DTHREAD_LINK_CPP="%s"' % os.path.join(ctx.repo, TL),
+           "-I", os.path.join(ctx.repo, "include"), os.path.join(vlib.VERIF, "harness/C06/schedule_replay.cpp"),
+           "-x", "c", os.path.join(ctx.repo, "src/rtosc.c"), "-o", exe]
+    b = subprocess.run(cmd, stdout=subprocess.PIPE, stderr=subprocess.STDOUT, text=True)
+    if b.returncode != 0:
+        res.append({"name": "C06.schedule.copy_points", "ok": None, "detail": "native build failed: " + b.stdout[-600:]})
+    else:
+        try:
+            r = subprocess.run([exe], stdout=subprocess.PIPE, stderr=subprocess.STDOUT, text=True, timeout=60)
+            rc, out = r.returncode, r.stdout
+        except subprocess.TimeoutExpired as e:
+            rc, out = 1, "did not terminate within 60 s (a message was lost or the ring wedged)\n" + ((e.stdout or b"").decode("utf-8", "replace") if isinstance(e.stdout, bytes) else (e.stdout or ""))
+        res.append({"name": "C06.schedule.copy_points", "ok": rc == 0, "reproduced": rc != 0,
+                    "detail": "native run of the real thread-link.cpp with the other thread scheduled at every buffer copy: " + out[-700:]})
+    return res
 
 
 def obligations(ctx):
